@@ -30,6 +30,9 @@
  *           C08.frag.current_frag_scoped  proc->current_frag is NULL again on
  *              return
  *           C17.bp.dont_dedup           DONT_DEDUPLICATE ==> no search at all
+ *           C17.bp.frag_block_inherits  the fragment block is flagged
+ *              DONT_COMPRESS iff one of its fragments is; no other user flag of
+ *              a fragment leaks into the block
  */
 #include "bp_env.h"
 
@@ -394,9 +397,18 @@ void harness(void)
 				     g_fb.b.size == fb_size0 + frag_size &&
 				     g_fb.b.index == fb_index0,
 				     "C08.frag.append_in_bounds");
+			/* one uncompressed fragment makes the whole block
+			 * uncompressed; nothing else is inherited */
+			VERIF_ASSERT(g_fb.b.flags == (fb_flags0 |
+				     (frag_flags & SQFS_BLK_DONT_COMPRESS)),
+				     "C17.bp.frag_block_inherits");
 			exp_index = fb_index0;
 			exp_offset = fb_size0;
 		} else {
+			VERIF_ASSERT(g_frag.b.flags ==
+				     ((frag_flags & SQFS_BLK_DONT_COMPRESS) |
+				      SQFS_BLK_FRAGMENT_BLOCK),
+				     "C17.bp.frag_block_inherits");
 			/* became the new fragment block */
 			VERIF_ASSERT(g_append_calls == 1 && g_append_ret == 0 &&
 				     g_frag.b.index == g_new_index &&
